@@ -76,6 +76,11 @@ def ENUM(path):
     return Spec("enum", path)
 
 
+def NEW(cls, *args):
+    """an instance obtained by running the class's real constructor on arguments made from specs"""
+    return Spec("new", cls, *args)
+
+
 def PYLIST(*elems):
     return Spec("pylist", *elems)
 
@@ -305,6 +310,20 @@ class Verifier:
                     yield s1, s1.new_dict(dict(acc))
                 else:
                     yield s1, JVal(tm.Fresh(name, J), s1.alloc(dict(acc)))
+        elif tag == "new":
+            cls = self.resolve(spec.a[0])
+            cur = [(st, [])]
+            for k, sp in enumerate(spec.a[1:]):
+                nxt = []
+                for s1, acc in cur:
+                    for s2, v in self.make(s1, sp, "%s.arg%d" % (name, k)):
+                        nxt.append((s2, acc + [v]))
+                cur = nxt
+            for s1, acc in cur:
+                for s2, o in self.ip.instantiate(s1, cls, acc, {}):
+                    if isinstance(o, Raise):
+                        raise Unsupported("constructor of %s raised while building a pre-state" % cls.name)
+                    yield s2, o
         elif tag == "oneof":
             alts = list(spec.a)
             for k, alt in enumerate(alts):
